@@ -507,6 +507,51 @@ def rule_cwd(ctx):
            construct=f"user:cwd reset:{extra[:1]}")
 
 
+REFUSE_EXEMPT = {
+    "user": "a new USER resets the login first by design: the 530 of an unknown / over-limit user leaves the session logged out",
+    "pasv": "the 503 for an IPv6-only listener is decided from the listener's own socket, i.e. after it was started",
+}
+
+
+REFUSE_FIELD_EXEMPT = {
+    "restart_offset": "the offset applies only to the immediately following command: it is consumed (reset) whether or not that command succeeds (C05.REST)",
+}
+
+
+def rule_refuse(ctx):
+    p = ctx.p
+    ctx.rule("C05.REFUSE", "a command that a handler refuses with a 5xx of its own leaves the session as it found it (as a refusal by its guards does): "
+                           "no session field is set or deleted on a path whose only replies are 5xx")
+    n = 0
+    for verb, name, fn in p.handlers():
+        if verb in REFUSE_EXEMPT:
+            continue
+        conn, _rest = p.handler_params(fn)
+        bad = None
+        for ev, out in enum_paths(p, fn):
+            if out[0] in ("cut", "raise"):
+                continue
+            pf = PathFacts(p, fn, conn, ev, out)
+            codes = [c_ for c_, _n in pf.replies]
+            if pf.infeasible or not codes or not all(isinstance(v, str) and v.startswith("5") for v in codes):
+                continue
+            n += 1
+            first_reply = pf.replies[0][1]
+            for node in evaluated(ev):
+                if isinstance(node, FuncT):
+                    continue
+                if any(x is first_reply for x in walk_self(node)):
+                    break
+                for t in (assign_targets(node) if isinstance(node, (ast.Assign, ast.AugAssign, ast.Delete)) else []):
+                    if isinstance(t, ast.Attribute) and isinstance(t.value, ast.Name) and t.value.id == conn and t.attr not in REFUSE_FIELD_EXEMPT:
+                        bad = (node, t.attr, codes)
+        ctx.ob("C05.REFUSE", bad[0] if bad else fn, f"{name}: no session field is changed before a refusal", bad is None,
+               (f"{name}: session.{bad[1]} is changed and then the command is refused with {bad[2]}: the refusal is not side-effect free "
+                "(the next command sees a state the sequential model does not have after a refused command)") if bad else "", construct=f"{name}:refusal after {bad[1] if bad else ''}")
+    if n < 3:
+        ctx.floor_errors.append(f"rule=C05.REFUSE: {n} refusing handler paths (floor 3)")
+
+
 def rule_rename(ctx):
     p = ctx.p
     ctx.rule("C05.RENAME", "pending-rename typestate: RNFR sets it, RNTO requires it (guard), consumes it and forgets it on every path before the backend is asked; nothing else touches it")
@@ -533,6 +578,7 @@ def rule_rename(ctx):
         return False
     ok = True
     n_paths = 0
+    refused_after = False
     for ev, out in enum_paths(p, rnto):
         if out[0] in ("cut",):
             continue
@@ -547,6 +593,14 @@ def rule_rename(ctx):
                 ok = False
         if out[0] in ("return", "fall") and not forgot:
             ok = False
+        # a refusal the handler words itself (5xx) must leave the session as it found it - like the refusals of its guards, which run before the body
+        pf = PathFacts(p, rnto, conn, ev, out)
+        codes = [c_ for c_, _n in pf.replies]
+        if forgot and not pf.infeasible and codes and all(isinstance(v, str) and v.startswith("5") for v in codes):
+            refused_after = True
+    ctx.ob("C05.RENAME", rnto, "RNTO never refuses (5xx) after it has consumed the pending rename", not refused_after,
+           "RNTO consumes the pending rename and then refuses the command with a 5xx of its own: unlike a refusal by its guards (which leaves the session untouched), "
+           "the next RNTO is answered 503 although the client's RNFR was accepted and never used", construct="rnto:refusal after forget")
     ctx.ob("C05.RENAME", rnto, f"RNTO forgets the pending rename on each of its {n_paths} paths, before asking the backend", ok and n_paths > 0,
            "RNTO does not forget the pending rename on every path before it asks the backend: one RNFR would serve several RNTOs (or survive a failed one)", construct="rnto:forget")
     sets = [s for s, t in attr_stores(rnfr, rf, nested=False) if isinstance(s, ast.Assign)]
@@ -560,4 +614,14 @@ def rule_rename(ctx):
             ctx.fail("C05.RENAME", touched[0], f"{name} changes the pending rename", construct=f"{name}:touches {rf}")
 
 
-RULES = [rule_one_end, rule_wrappers, rule_seq, rule_arg, rule_rest, rule_codes, rule_cwd, rule_rename]
+def rule_guard_seq(ctx):
+    from .c03 import rule_wrap
+    from .c02 import rule_res
+    ctx.rule("C05.GUARD", "an out-of-sequence command is answered 503 by the guard and never reaches its handler: the guard delegates only when every required session future "
+                          "is done (shared with C03.WRAP)")
+    ctx.borrow(rule_wrap, {"C03.WRAP": "C05.GUARD"})
+    ctx.rule("C05.PATH", "the working directory the session ends up with is the folded absolute path of the model (shared with C02.RES)")
+    ctx.borrow(rule_res, {"C02.RES": "C05.PATH"})
+
+
+RULES = [rule_one_end, rule_wrappers, rule_seq, rule_arg, rule_rest, rule_codes, rule_cwd, rule_rename, rule_refuse, rule_guard_seq]
